@@ -156,8 +156,21 @@ def probe_str_zero() -> Optional[str]:
     return None
 
 
+def probe_empty_no_cols() -> Optional[str]:
+    import numpy as np
+    from pacti.terms.polyhedra import PolyhedralTermList
+
+    flag = _const_value("emptyNoColsBySign") == "true"
+    for b, want in (([-1.0], flag), ([1.0, -0.5], flag), ([0.0, 2.0], False)):
+        got = bool(PolyhedralTermList.is_polytope_empty(np.zeros((len(b), 0)), np.array(b)))
+        if got != want:
+            return f"is_polytope_empty(no columns, b = {b}) = {got}; kept flag emptyNoColsBySign = {flag}"
+    return None
+
+
 PROBES: Dict[str, Callable[[], Optional[str]]] = {
     "Lists": probe_lists,
+    "Consts.emptyNoColsBySign": probe_empty_no_cols,
     "Iface": probe_iface,
     "Consts.isolateSign": probe_isolate_sign,
     "Consts.tactic3Fresh": probe_tactic3_fresh,
